@@ -15,3 +15,6 @@ Local Open Scope Z_scope.
 Definition id_addr (a : Z) : Z := a.
 Definition mem_store (mem : Z -> Z) (v p : Z) : Z -> Z := upd mem p v.
 Definition pool_free (pool : Z -> Z) (p : Z) : Z -> Z := upd (upd pool (pool 0 + 1) p) 0 (pool 0 + 1).
+
+(* RowProxy(columnList, raw, freeRaws): the three constructor arguments of a Row *)
+Definition mk_row (cl raw fr : Z) : Z * Z * Z := (cl, raw, fr).
